@@ -19,13 +19,14 @@ open Proto Pdf
              op = A<xs> (add_events) | R (reset);  ERR = constructor raises
       ttrials <box|gauss> <edges> <ts> <te> <sigma> <erfx> <erfy> <times>*  -> pd list per trial (one object)
       gcache <cacheOn 0|1> <trial ids> (<raw_k> <norm_k>)*       -> pd list per evaluation (MultiDimGridPDF pd cache)
+      colsum <kernel> <n>                                       -> column sums of the row-normalised smoothing matrix
       ginterp <ey> <ex> <grid row-major> <ys> <xs>                -> bilinear interpolant (fill 0) at the points
       gmcache <cacheOn> <k:mask,…> (<raw_k> <norm_k>)*           -> pd list per request (mask `*` = get_pd, 0/1 string = evt_mask)
       pprod  <b1> <b2> <ops: string of E|L|R>                  -> list per op (PDFProduct on two internal arrays)
       tmulti <edges> <ts per source> <te per source> <times> <src_idxs> <evt_idxs>  -> pd per value (source loop)
       tstate2 <ts list> <te list> <edges> <prof> <op>*         -> what get_pd returns at each G (fixed code)
              op = L<edges> | Q<k> | X<k> (profile mutated outside) | M<edges> (interval array replaced
-                  behind the PDF) | I<times> (initialize_for_new_trial) | G (get_pd)
+                  behind the PDF) | I<times> (initialize_for_new_trial) | G (get_pd) | V<t> (validity check of one time -> v0|v1)
       tstate <ts list> <te list> <edges> <prof> <op>*          -> S after init and after each op
              op = P<k> (set_params -> profile k) | Q<k> (time_flux_profile = k) | L<edges>
 -/
@@ -138,6 +139,9 @@ def answer (line : String) : String :=
       let raw : Nat → List Float := fun k => tab.getD (2 * k) []
       let norm : Nat → List Float := fun k => tab.getD (2 * k + 1) []
       String.intercalate " " ((gRun (gEval (pB on) raw norm) ⟨none, none⟩ (pList pN ids)).map (fListD fF))
+  | ["colsum", k, n] =>
+      let k := pList pF k
+      fListD fF ((List.range (pN n)).map (colSum k (pN n)))
   | ["ginterp", ey, ex, grid, ys, xs] =>
       let (ey, ex) := (pList pF ey, pList pF ex)
       let flat := pList pF grid
@@ -184,6 +188,8 @@ def answer (line : String) : String :=
               | some l => fListD fF l
               | none => "ERR"
             out :: go2 (tStep2 true table val s .getPd) rest
+          else if o.startsWith "V" then
+            (if tValid true table s (pF arg) then "v1" else "v0") :: go2 (tStep2 true table val s .checkValid) rest
           else
             let op : TOp2 Float :=
               if o.startsWith "L" then .setLivetime (pairs arg)
